@@ -37,6 +37,16 @@ fn note_current(ctx: &Ctx, case: &GenCase) {
     });
 }
 
+/// the case noted by `note_current` finished (an empty breadcrumb = nothing in flight)
+fn note_done() {
+    CUR.with(|c| {
+        if let Some(f) = c.borrow_mut().as_mut() {
+            let _ = f.seek(SeekFrom::Start(0));
+            let _ = f.set_len(0);
+        }
+    });
+}
+
 pub fn fuel_for(c: &GenCase) -> u64 {
     (3 * (c.min_opcodes.max(c.max_opcodes) as u64) + 8) * (1 + c.prior_calls as u64)
 }
@@ -54,7 +64,7 @@ fn spawn_small() -> std::sync::mpsc::Sender<Job> {
         .stack_size(2 << 20)
         .spawn(move || {
             while let Ok((c, back)) = rx.recv() {
-                verif::start(TraceCfg { fuel: Some(fuel_for(&c)), ..Default::default() });
+                verif::start(TraceCfg { fuel: Some(fuel_for(&c)), draw_fuel: Some(draw_fuel_for(&c)), ..Default::default() });
                 // build, generate and drop (recursive Drop of nested tuples included) all happen here
                 let r = c.run();
                 let _ = verif::take();
@@ -123,7 +133,9 @@ pub fn check_c09(ctx: &Ctx, c: &GenCase, st: &mut Stats) -> Result<(), Fail> {
     if c.unsafe_mutations {
         st.label("unsafe");
     }
-    match run_on_small_stack(c) {
+    let result = run_on_small_stack(c);
+    note_done();
+    match result {
         Ok(o) if !o.is_empty() => {
             if degenerate {
                 st.nontrivial(util::digest(&o) ^ util::digest_str(&c.brief()));
@@ -134,7 +146,13 @@ pub fn check_c09(ctx: &Ctx, c: &GenCase, st: &mut Stats) -> Result<(), Fail> {
         Ok(_) => ctx.fail(st, Fail::new("empty-output", format!("{} returned Ok with an empty byte string", c.brief()))),
         Err(Failure::Err(e)) => ctx.fail(st, Fail::new(format!("returned-err:{}", normalise(&e)), format!("{} returned Err: {}", c.brief(), e))),
         Err(Failure::Panic(p)) => {
-            let class = if p.contains(verif::FUEL_PANIC) { "runaway-emission".to_string() } else { format!("panic:{}", normalise(&p)) };
+            let class = if p.contains(verif::FUEL_PANIC) {
+                "runaway-emission".to_string()
+            } else if p.contains(verif::DRAW_FUEL_PANIC) {
+                "runaway-entropy-draws".to_string()
+            } else {
+                format!("panic:{}", normalise(&p))
+            };
             ctx.fail(st, Fail::new(class, format!("{} panicked: {}", c.brief(), p)))
         }
     }
@@ -159,6 +177,13 @@ fn enum_configs(protocol: u8, which: u8, range: (usize, usize)) -> GenCase {
         }
     }
     c
+}
+
+/// Entropy-draw budget: no opcode needs more than ~100 draws (a 31-character string, its
+/// mutation, the opcode choice); 100 000 per opcode plus 10^6 is only ever exceeded by a loop
+/// that keeps drawing without making progress, which it turns into a deterministic failure.
+pub fn draw_fuel_for(c: &GenCase) -> u64 {
+    (100_000 * (c.min_opcodes.max(c.max_opcodes) as u64 + 8) + 1_000_000) * (1 + c.prior_calls as u64)
 }
 
 /// body of the child process
@@ -238,6 +263,45 @@ pub fn c09_child(ctx: &Ctx) -> i32 {
     0
 }
 
+/// like `wait_with_timeout`, but also gives up when one case has been in flight for longer than
+/// `stall` (its non-empty breadcrumb file has not changed); returns Err(case json) then
+fn wait_watching(ctx: &Ctx, child: &mut std::process::Child, limit: Duration, stall: Duration) -> Result<Option<std::process::ExitStatus>, String> {
+    let t0 = Instant::now();
+    let pid = child.id();
+    loop {
+        match child.try_wait() {
+            Ok(Some(s)) => return Ok(Some(s)),
+            Ok(None) => {}
+            Err(_) => return Ok(None),
+        }
+        if t0.elapsed() > limit {
+            let _ = child.kill();
+            let _ = child.wait();
+            return Ok(None);
+        }
+        if let Ok(rd) = std::fs::read_dir(format!("{}/work", ctx.verif_dir)) {
+            for e in rd.filter_map(|e| e.ok()) {
+                let name = e.file_name().to_string_lossy().to_string();
+                if !name.starts_with(&format!("c09-cur-{}-", pid)) {
+                    continue;
+                }
+                let Ok(md) = e.metadata() else { continue };
+                if md.len() == 0 {
+                    continue;
+                }
+                let age = md.modified().ok().and_then(|m| m.elapsed().ok()).unwrap_or_default();
+                if age > stall {
+                    let case = std::fs::read_to_string(e.path()).unwrap_or_default();
+                    let _ = child.kill();
+                    let _ = child.wait();
+                    return Err(case);
+                }
+            }
+        }
+        std::thread::sleep(Duration::from_millis(500));
+    }
+}
+
 fn wait_with_timeout(child: &mut std::process::Child, limit: Duration) -> Option<std::process::ExitStatus> {
     let t0 = Instant::now();
     loop {
@@ -299,7 +363,26 @@ pub fn run_c09(ctx: &Ctx) -> Outcome {
     };
     let pid = child.id();
     let limit = Duration::from_secs(if ctx.thorough() { 3 * 3600 } else { 1500 });
-    let status = wait_with_timeout(&mut child, limit);
+    // slowest legitimate case of the tier: ~5 s (24 000 opcodes) quick, ~50 s (50 000 opcodes) thorough
+    let stall = Duration::from_secs(if ctx.thorough() { 900 } else { 150 });
+    let status = match wait_watching(ctx, &mut child, limit, stall) {
+        Ok(s) => s,
+        Err(case_json) => {
+            let brief = serde_json::from_str::<GenCase>(&case_json).map(|c| c.brief()).unwrap_or(case_json);
+            out.inconclusive = Some(format!(
+                "watchdog: one generation did not finish within {} s and was killed (a spin that neither emits nor draws entropy cannot be told from slowness, so this is not reported as a violation): {}",
+                stall.as_secs(),
+                brief
+            ));
+            let cur: Vec<String> = std::fs::read_dir(format!("{}/work", ctx.verif_dir))
+                .map(|d| d.filter_map(|e| e.ok()).map(|e| e.path().to_string_lossy().to_string()).filter(|p| p.contains(&format!("c09-cur-{}-", pid))).collect())
+                .unwrap_or_default();
+            for f in cur {
+                let _ = std::fs::remove_file(f);
+            }
+            return out;
+        }
+    };
     let cur_files: Vec<String> = std::fs::read_dir(format!("{}/work", ctx.verif_dir))
         .map(|d| d.filter_map(|e| e.ok()).map(|e| e.path().to_string_lossy().to_string()).filter(|p| p.contains(&format!("c09-cur-{}-", pid))).collect())
         .unwrap_or_default();
@@ -404,7 +487,10 @@ pub fn c09_one(ctx: &Ctx, path: &str) -> i32 {
     let mut st = Stats::default();
     let mut strict = ctx.clone();
     strict.strict = true;
-    match check_c09(&strict, &c, &mut st) {
+    let r = check_c09(&strict, &c, &mut st);
+    // the breadcrumb of this (surviving) process is not needed
+    let _ = std::fs::remove_file(format!("{}/work/c09-cur-{}-{:?}.json", ctx.verif_dir, std::process::id(), std::thread::current().id()));
+    match r {
         Ok(()) => 0,
         Err(_) => 1,
     }
